@@ -11,6 +11,7 @@
 #include <csetjmp>
 #include <csignal>
 #include <fstream>
+#include <sys/wait.h>
 #include <unistd.h>
 
 using namespace soplex;
@@ -833,6 +834,23 @@ static int dualMode(const char* casefile, const std::string& tmp)
    while(readCase(in, c))
    {
       std::cout << "CASE " << c.id << "\n";
+      std::cout.flush();
+      // one process per case: a crash of the writer is an observation, not the end of the run
+      pid_t pid = fork();
+
+      if(pid > 0)
+      {
+         int st = 0;
+         waitpid(pid, &st, 0);
+
+         if(WIFSIGNALED(st))
+            std::cout << "WRITE CRASH:signal" << WTERMSIG(st) << "\n";
+         else if(WEXITSTATUS(st) != 0)
+            std::cout << "WRITE CRASH:exit" << WEXITSTATUS(st) << "\n";
+
+         continue;
+      }
+
       SP a;
       quiet(a);
       c.mode = "real";
@@ -859,7 +877,10 @@ static int dualMode(const char* casefile, const std::string& tmp)
       std::cout << "FILE " << vf::hex(slurp(fn).substr(0, 20000)) << "\n";
 
       if(wr != "ok")
-         continue;
+      {
+         std::cout.flush();
+         _exit(0);
+      }
 
       std::string ps = "EXC", dsn = "EXC";
       double pv = 0, dv = 0;
@@ -890,7 +911,8 @@ static int dualMode(const char* casefile, const std::string& tmp)
       if(!ok)
       {
          std::cout << "READ FAIL\n";
-         continue;
+         std::cout.flush();
+         _exit(0);
       }
 
       std::cout << "READ ok\n";
@@ -905,6 +927,8 @@ static int dualMode(const char* casefile, const std::string& tmp)
       }
 
       std::cout << "P " << ps << " " << dy(pv) << "\nD " << dsn << " " << dy(dv) << "\n";
+      std::cout.flush();
+      _exit(0);
    }
 
    std::cout.flush();
